@@ -3,7 +3,7 @@
 (* C20 judge (pattern B).  The harness recorder (rzxdrv.py) made a         *)
 (* recording; the real rzxplay / rzxinfo were run on the file.  A case:    *)
 (*   blocks  the recording: [fs |-> stored frames, ends |-> what the       *)
-(*           recorder saw and did at each frame end]                       *)
+(*           recorder saw and did at each frame end, snapmode]             *)
 (*   kind = "play": flags, want (recorder's final state), got (state in    *)
 (*           the snapshot rzxplay wrote after playing to the end), err     *)
 (*   kind = "stop": k, bounds (recorder's state at every frame boundary),  *)
@@ -20,7 +20,8 @@ EXTENDS RzxProtocol, Json, IOUtils
 Cases == JsonDeserialize(IOEnv.CASES)
 VARIABLES tid, verdict
 
-Matches(c) == \A b \in 1..Len(c.blocks) : ConvMatchesBlock(c.flags, c.blocks[b].fs, c.blocks[b].ends)
+Matches(c) == \A b \in 1..Len(c.blocks) : /\ ConvMatchesBlock(c.flags, c.blocks[b].fs, c.blocks[b].ends)
+                                          /\ SnapshotUseMatches(c.flags, c.blocks[b].snapmode)
 
 \* fields a snapshot format cannot carry are projected as -1 and not compared
 StateClause(w, g, feclaim, mpclaim) ==
